@@ -4,6 +4,7 @@ behaviour-preserving twin must pass (exit 0).  Variants are single edits applied
 import argparse
 import concurrent.futures as cf
 import importlib
+import json
 import os
 import shutil
 import subprocess
@@ -27,6 +28,20 @@ def load_variants(props=None):
     # a formatter pass over the whole package (comments, blank lines, line numbers, parentheses change; behaviour does not)
     for p in sorted(props or ["C%02d" % i for i in range(1, 21)]):
         out.append(dict(id="formatter-pass", prop=p, kind="twin", transform="unparse"))
+    # the kept seeded changes (made by independent sub-agents, confirmed by hand; see seeded/<id>/meta.json): each must be
+    # reported by the check of the property it was written to break
+    sd = os.path.join(VERIF, "seeded")
+    for d in sorted(os.listdir(sd)) if os.path.isdir(sd) else []:
+        mp = os.path.join(sd, d, "meta.json")
+        if not os.path.exists(mp):
+            continue
+        with open(mp, encoding="utf-8") as f:
+            meta = json.load(f)
+        if props and meta["property"] not in props:
+            continue
+        if not meta.get("checks", {}).get("caught_by_own_property", True):
+            continue        # a recorded miss (outside the reach of this family): listed in seeded/MATRIX.md, not asserted
+        out.append(dict(id="seeded:" + d, prop=meta["property"], kind="break", patch=os.path.join(sd, d, "patch.diff")))
     return out
 
 
@@ -41,6 +56,12 @@ def apply_edit(root, v):
                         src = f.read()
                     with open(p, "w", encoding="utf-8") as f:
                         f.write(ast.unparse(ast.parse(src)) + "\n")
+        return None
+    if v.get("patch"):
+        r = subprocess.run(["git", "apply", "--include=eqsig/*", v["patch"]], cwd=root, capture_output=True, text=True,
+                           env=dict(os.environ, GIT_CEILING_DIRECTORIES=os.path.dirname(root)))
+        if r.returncode != 0:
+            return "patch does not apply to the current tree: %s" % r.stderr.strip()[:200]
         return None
     edits = v.get("edits") or [(v["file"], v["old"], v["new"])]
     for file, old, new in edits:
